@@ -118,13 +118,29 @@ Definition obs_ok (c : router_config) (o : obs) : bool :=
   | Some (r, s) => N.eqb r (rc_receive c) && N.eqb s (rc_send c)
   end.
 
+(** Flat encodings keep the generated case files cheap to elaborate:
+    a link is  kind + 3 * origin ; an observation list is a sequence of
+    0 (no socket)  or  1, receive, send. *)
+Definition links_of (l : list N) : list (N * N) := map (fun x => (x mod 3, x / 3)) l.
+Fixpoint obs_list_of (fuel : nat) (l : list N) : option (list obs) :=
+  match fuel with
+  | O => None
+  | S f =>
+    match l with
+    | [] => Some []
+    | 0 :: t => option_map (cons None) (obs_list_of f t)
+    | 1 :: r :: s :: t => option_map (cons (Some (r, s))) (obs_list_of f t)
+    | _ => None
+    end
+  end.
+
 Inductive case :=
 | CPlumb (receive send batch : N) (reuse_local : bool)
-         (links : list (N * N))          (* (kind code, origin code) per configured link *)
-         (impl : list obs)               (* conn.Config of the Open made for that link *)
-| CChain (receive send batch : N) (reuse_local : bool) (links : list (N * N))
+         (links : list N)                (* kind + 3 * origin per configured link *)
+         (impl : list N)                 (* conn.Config of the Open made for that link *)
+| CChain (receive send batch : N) (reuse_local : bool) (links : list N)
          (def_rcv def_snd : N)           (* kernel defaults *)
-         (impl : list obs)               (* getsockopt (SO_RCVBUF, SO_SNDBUF) of the link's socket *)
+         (impl : list N)                 (* getsockopt (SO_RCVBUF, SO_SNDBUF) of the link's socket *)
 | CSock (receive send : N)               (* conn.Config given to conn.New *)
         (def_rcv def_snd : N)            (* kernel defaults (socket opened with a zero config) *)
         (impl_rcv impl_snd : N).         (* getsockopt SO_RCVBUF / SO_SNDBUF afterwards *)
@@ -165,15 +181,15 @@ Definition check (x : case) : N :=
   match x with
   | CPlumb r s b reuse links impl =>
     let c := {| rc_receive := r; rc_send := s; rc_batch := b |} in
-    match model_links c reuse links with
-    | Some m => Check.verdict (list_eqb obs_eqb m impl) (forallb (obs_ok c) impl)
-    | None => 1
+    match model_links c reuse (links_of links), obs_list_of (S (length impl)) impl with
+    | Some m, Some impl => Check.verdict (list_eqb obs_eqb m impl) (forallb (obs_ok c) impl)
+    | _, _ => 1
     end
   | CChain r s b reuse links dr ds impl =>
     let c := {| rc_receive := r; rc_send := s; rc_batch := b |} in
-    match model_chain c reuse dr ds links with
-    | Some m => Check.verdict (list_eqb obs_eqb m impl) (forallb (sock_ok c dr ds) impl)
-    | None => 1
+    match model_chain c reuse dr ds (links_of links), obs_list_of (S (length impl)) impl with
+    | Some m, Some impl => Check.verdict (list_eqb obs_eqb m impl) (forallb (sock_ok c dr ds) impl)
+    | _, _ => 1
     end
   | CSock r s dr ds ir is_ =>
     let o := init_conn {| cc_send := s; cc_receive := r |} in
@@ -185,10 +201,10 @@ Definition check (x : case) : N :=
 Definition diag (x : case) : list obs :=
   match x with
   | CPlumb r s b reuse links _ =>
-    match model_links {| rc_receive := r; rc_send := s; rc_batch := b |} reuse links with
+    match model_links {| rc_receive := r; rc_send := s; rc_batch := b |} reuse (links_of links) with
     | Some m => m | None => [] end
   | CChain r s b reuse links dr ds _ =>
-    match model_chain {| rc_receive := r; rc_send := s; rc_batch := b |} reuse dr ds links with
+    match model_chain {| rc_receive := r; rc_send := s; rc_batch := b |} reuse dr ds (links_of links) with
     | Some m => m | None => [] end
   | CSock r s dr ds _ _ =>
     let o := init_conn {| cc_send := s; cc_receive := r |} in
